@@ -1,7 +1,7 @@
 (* Correspondence checker for the multiplexed operators: the slot-level machine bm (den_pipe p)
    is run on the trace the implementation was run on; outputs are compared step by step. *)
 From Coq Require Import List ZArith Bool.
-From RxVerif Require Import Base.Corr Mux.Val Mux.Sim Mux.SimExt Mux.Ops Mux.Syntax Mux.Plain Mux.PlainTimed Mux.Boundaries Mux.QuietProofs.
+From RxVerif Require Import Base.Corr Mux.Val Mux.Sim Mux.SimExt Mux.Ops Mux.Syntax Mux.Plain Mux.PlainTimed Mux.Boundaries Mux.QuietProofs Mux.Sort.
 Import ListNotations.
 
 Inductive oev :=
@@ -40,6 +40,8 @@ Inductive muxcase :=
 | MCWf (taps : list (list oev))
 (* the pipeline satisfies the hypothesis of QuietProofs.nothing_held_back *)
 | MCPerItem (p : list op)
+(* rs.data.sort on a plain observable: (items, what was emitted) against the model of sorted() *)
+| MCSort (f : option fn) (rev : bool) (runs : list (list val * list val))
 | MCAnd (a b : muxcase).
 Definition mux_model (p : list op) (t : list iev) : list (list oev) := map (map norm) (run_pipe p t).
 Definition plain_agrees (p : list op) (r : list val * list val) : bool :=
@@ -78,5 +80,6 @@ Fixpoint mux_check (c : muxcase) : bool :=
   | MCBnd p t mask taps => list_eqb (list_eqb oev_same) (keep mask (map (map norm) (bnd_pipe p t))) taps
   | MCWf taps => forallb tap_wf taps
   | MCPerItem p => per_item_pipe p
+  | MCSort f rev runs => forallb (fun r => match py_sorted f rev (fst r) with Some ys => list_eqb val_same ys (snd r) | None => false end) runs
   | MCAnd a b => mux_check a && mux_check b
   end.
